@@ -1,5 +1,12 @@
+//! vh-parsers: runner for property C17 (all checks live in the library so that the cargo-fuzz
+//! targets under /verif/fuzz share them).
 fn main() {
     let cfg = vh_core::RunCfg::from_args();
-    eprintln!("vh-parsers: property {} not built yet", cfg.prop);
-    std::process::exit(2);
+    match cfg.prop.as_str() {
+        "C17" => vh_parsers::c17::run(cfg),
+        other => {
+            eprintln!("vh-parsers: unknown property {other}");
+            std::process::exit(2);
+        }
+    }
 }
